@@ -150,8 +150,8 @@ pub fn fmt_num(rng: &mut Rng, v: f32, style: u8) -> String {
         }
     };
     let pick = cands[rng.usize(cands.len())].clone();
-    // it must read back as the same f32 and must look like a number to the attribute parser
-    if pick.trim().parse::<f32>().ok() == Some(v) {
+    // it must read back as the same f32 (bit for bit: "0" is not a spelling of -0.0) and must look like a number to the attribute parser
+    if pick.trim().parse::<f32>().ok().map(f32::to_bits) == Some(v.to_bits()) {
         pick
     } else {
         plain
